@@ -21,6 +21,9 @@ theorem foldl_obs (l : List Obs) (j : Mon) : (l.map Item.obs).foldl Mon.step j =
   | nil => rfl
   | cons o l ih => exact ih (j.onObs o)
 
+theorem lapse_self (j : Mon) : j.lapse j.now = j := by
+  unfold Mon.lapse; rw [if_neg (Int.lt_irrefl _)]
+
 theorem nextKey_gen (k : Nat) : nextKey Gen.C15.seqIncr Gen.C15.seqMax Gen.C15.seqWrapTo k = specNextKey k := by
   have e1 : Gen.C15.seqIncr = 1 := rfl
   have e2 : Gen.C15.seqMax = 4294967295 := rfl
@@ -54,7 +57,8 @@ theorem notifies_ok (L : List Sub) : ∀ (j : Mon), (L.map (·.sid)).Nodup →
     ∧ j'.lastChange = j.lastChange ∧ j'.lastTrig = j.lastTrig ∧ j'.awaiting = j.awaiting
     ∧ j'.subs.length = j.subs.length
     ∧ (∀ s ∈ L, ∀ sm, j.subs[s.sid]? = some sm → j'.subs[s.sid]? = some (sm.sent j.cur))
-    ∧ (∀ k, k ∉ L.map (·.sid) → j'.subs[k]? = j.subs[k]?) := by
+    ∧ (∀ k, k ∉ L.map (·.sid) → j'.subs[k]? = j.subs[k]?)
+    ∧ j'.pendingChg = j.pendingChg := by
   induction L with
   | nil => intro j _ _ _; simp
   | cons s L ih =>
@@ -66,7 +70,7 @@ theorem notifies_ok (L : List Sub) : ∀ (j : Mon), (L.map (·.sid)).Nodup →
     let j1 : Mon := j.onObs (notifyOf j.now (bodyOf j.evented j.cur) s)
     have hj1 : j1 = { j with subs := j.subs.set s.sid (sm.sent j.cur) } := by
       show j.onObs (notifyOf j.now (bodyOf j.evented j.cur) s) = _
-      simp only [notifyOf, Mon.onObs, htr.at_]
+      simp only [notifyOf, Mon.onObs, lapse_self, Mon.notifyAt, htr.at_]
       have hu : (sm.url.isNone || sm.url == some s.url) = true := by
         rcases htr.url with h | h <;> simp [h]
       simp [timeOk, hnt, htr.alive, htr.seq, htr.init, htr.exp, hexp, hcr, hu, SubMon.sent, bodyOk_bodyOf]
@@ -82,12 +86,12 @@ theorem notifies_ok (L : List Sub) : ∀ (j : Mon), (L.map (·.sid)).Nodup →
       rw [hj1]; simp only [List.getElem?_set_ne hne]; exact htr'.at_
     have ih' := ih j1 hnd' (by rw [hj1]; exact hnt) htail
     simp only [hnow1, hev1, hcur1] at ih'
-    obtain ⟨h1, h2, h3, h4, h5, h6, h7, h8, h9, h10, h11, h12⟩ := ih'
+    obtain ⟨h1, h2, h3, h4, h5, h6, h7, h8, h9, h10, h11, h12, h13⟩ := ih'
     have hrun : j.obsRun ((s :: L).map (notifyOf j.now (bodyOf j.evented j.cur)))
         = j1.obsRun (L.map (notifyOf j.now (bodyOf j.evented j.cur))) := rfl
     simp only [hrun]
     refine ⟨by rw [h1, hj1], by rw [h2], by rw [h3, hj1], by rw [h4], by rw [h5, hj1], by rw [h6], by rw [h7, hj1],
-      by rw [h8, hj1], by rw [h9, hj1], by rw [h10, hj1]; simp, ?_, ?_⟩
+      by rw [h8, hj1], by rw [h9, hj1], by rw [h10, hj1]; simp, ?_, ?_, by rw [h13, hj1]⟩
     · intro s' hs' sm' hsm'
       rcases List.mem_cons.mp hs' with rfl | hs'
       · rw [h12 _ hs_notin, hj1]
@@ -115,12 +119,13 @@ structure Frame (j j' : Mon) : Prop where
   lastChange : j'.lastChange = j.lastChange
   lastTrig : j'.lastTrig = j.lastTrig
   awaiting : j'.awaiting = j.awaiting
+  pendingChg : j'.pendingChg = j.pendingChg
 
-theorem Frame.refl (j : Mon) : Frame j j := ⟨rfl, rfl, rfl, rfl, rfl, rfl, rfl, rfl, rfl⟩
+theorem Frame.refl (j : Mon) : Frame j j := ⟨rfl, rfl, rfl, rfl, rfl, rfl, rfl, rfl, rfl, rfl⟩
 theorem Frame.trans {a b c : Mon} (h1 : Frame a b) (h2 : Frame b c) : Frame a c :=
   ⟨h2.ok.trans h1.ok, h2.now.trans h1.now, h2.target.trans h1.target, h2.evented.trans h1.evented,
    h2.rate.trans h1.rate, h2.cur.trans h1.cur, h2.lastChange.trans h1.lastChange,
-   h2.lastTrig.trans h1.lastTrig, h2.awaiting.trans h1.awaiting⟩
+   h2.lastTrig.trans h1.lastTrig, h2.awaiting.trans h1.awaiting, h2.pendingChg.trans h1.pendingChg⟩
 
 /-- the subscriber part of the simulation relation -/
 structure SubsOk (m : State) (js : List SubMon) : Prop where
@@ -157,9 +162,9 @@ theorem broadcast_ok (m : State) (j : Mon) (c : Nat)
   have hN := notifies_ok L j hLnd (by rw [hnow]; exact htgt) hpre
   simp only at hN
   rw [← hobs] at hN
-  obtain ⟨h1, h2, h3, h4, h5, h6, h7, h8, h9, h10, h11, h12⟩ := hN
+  obtain ⟨h1, h2, h3, h4, h5, h6, h7, h8, h9, h10, h11, h12, h13⟩ := hN
   have hr1 : r.1.subs = L.map Sub.bump := rfl
-  refine ⟨⟨h1, h2, h3, h4, h5, h6, h7, h8, h9⟩, rfl, rfl, rfl, ⟨?_, ?_, ?_, ?_⟩, ?_⟩
+  refine ⟨⟨h1, h2, h3, h4, h5, h6, h7, h8, h9, h13⟩, rfl, rfl, rfl, ⟨?_, ?_, ?_, ?_⟩, ?_⟩
   · show j'.subs.length = m.nextSid
     rw [h10]; exact hs.nsid
   · rw [hr1]; simpa [List.map_map, Function.comp_def, Sub.bump] using hLnd
@@ -242,11 +247,13 @@ theorem broadcastN_ok (n : Nat) : ∀ (m : State) (j : Mon) (c : Nat),
       exact (hc1 s hs' sm hsm).2
 
 /-- the per-variable part of the simulation relation (moderation bookkeeping) -/
-structure VarOk (now : Int) (lastTrig : List (Option Int)) (lastChange : List Int) (i : Nat) (v : Var) : Prop where
+structure VarOk (now : Int) (lastTrig : List (Option Int)) (lastChange : List Int) (pendingChg : List Nat)
+    (i : Nat) (v : Var) : Prop where
   sent_le : v.lastSent ≤ now
   trig : lastTrig[i]? = some none ∨ lastTrig[i]? = some (some v.lastSent)
   dfr : ∀ f, v.deferred = some f →
     v.evented = true ∧ f = v.lastSent + v.rate ∧ v.lastSent ≤ lastChange.getD i 0 ∧ now < f
+  pc : ∃ n, pendingChg[i]? = some n ∧ (v.deferred ≠ none → 0 < n)
 
 /-- every subscriber of the model has seen the current value of every evented variable that has no timer pending -/
 @[reducible] def ValsOk (m : State) (js : List SubMon) : Prop :=
@@ -264,7 +271,7 @@ structure RelT (T : Int) (m : State) (j : Mon) : Prop where
   rate : j.rate = m.vars.map (·.rate)
   cur : j.cur = m.vars.map (·.value)
   lcLen : j.lastChange.length = m.vars.length
-  vars : ∀ i v, m.vars[i]? = some v → VarOk m.now j.lastTrig j.lastChange i v
+  vars : ∀ i v, m.vars[i]? = some v → VarOk m.now j.lastTrig j.lastChange j.pendingChg i v
   subs : SubsOk m j.subs
   vals : ValsOk m j.subs
   nowT : m.now ≤ T
